@@ -39,12 +39,16 @@ impl RecorderOnceCell {
             Ordering::Relaxed,
         ) {
             Ok(UNINITIALIZED) => {
+                #[cfg(metrics_verif)]
+                crate::__verif::point("cell.set.after_cas");
                 unsafe {
                     // SAFETY: Access is unique because we can only be here if we won the race
                     // to transition from `UNINITIALIZED` to `INITIALIZING` above.
                     self.recorder.get().write(Some(Box::leak(Box::new(recorder))));
                 }
 
+                #[cfg(metrics_verif)]
+                crate::__verif::point("cell.set.after_write");
                 // Mark the recorder as initialized, which will make it visible to readers.
                 self.state.store(INITIALIZED, Ordering::Release);
                 Ok(())
@@ -57,6 +61,8 @@ impl RecorderOnceCell {
         if self.state.load(Ordering::Acquire) != INITIALIZED {
             None
         } else {
+            #[cfg(metrics_verif)]
+            crate::__verif::point("cell.try_load.after_state");
             // SAFETY: If the state is `INITIALIZED`, then we know that the recorder has been
             // installed and is safe to read.
             unsafe { self.recorder.get().read() }
